@@ -21,17 +21,27 @@ MANIFEST = {
                 "another); reference count = handles in variables + handles stored in payloads; clear() terminates and frees exactly "
                 "the unreferenced blocks; the driver's read-out fuel suffices.  Further: type/value are the last assigned ones, the "
                 "integer/bool/null coercion tables hold for every integer of every width, printf numerals read back through the "
-                "modelled atoi/strtoul/atoll/strtoull, v == copy(v) for every NaN-free value; a second, variable-level model "
+                "modelled atoi/strtoul/atoll/strtoull, string -> integer conversions total over every text `ws sign digits rest` with libc's "
+                "clamping (LLONG_MIN/MAX, ULLONG_MAX, negation mod 2^64, 32-bit truncation) against the positional value of the digits, "
+                "v == copy(v) for every NaN-free value (also stated on the deep model: deep_eq_copy, deep_independent, "
+                "deep_type_value_last_assigned); the known finding self-append is a theorem (self_append_creates_cycle: the real code's "
+                "accessor chain + copy of the current v + link leaves the root block of v on a cycle, in every reachable state, for every "
+                "path; accepted_lines_acyclic: accepted lines never do); a second, variable-level model "
                 "(`refines`, `independent`) covers the share/clone decisions at the variables.  The deep model is tied to the current "
                 "Variant.hpp/Array.hpp/List.hpp/HashMap.hpp/String.cpp on every run: identical op lines are "
                 "executed by a harness built from the sources (ASan/UBSan/LSan) and by the compiled model; getType, every to* "
-                "conversion, the full nested value, the reference count of every heap block (data->ref, white box) and the == matrix of "
+                "conversion (toDouble as its exact IEEE bit pattern), the full nested value, the reference count of every heap block (data->ref, white box) and the == matrix of "
                 "all six variables are compared after every op, and the values against a Python store of deep-copied values.",
         "note": "Trusted: Lean kernel + the three standard axioms; hand translation of Variant.hpp into the models (validated by the "
                 "correspondence run, not proved).  Doubles are opaque in the theorems (any semantics of ==, casts, atof, printf %f): every "
                 "statement about the floating alternative is definitional, the double coercions are covered by the correspondence run "
-                "against Python floats only; the driver's IEEE instance (Ieee.lean) is only tested.  The string rows of the coercion "
-                "tables are relative to the area's own definitions of strtol/strtoul (the independent facts are the round-trip theorems).  "
+                "against Python floats (bit-exact for toDouble/atof, byte-exact for %f); about the driver's IEEE instance (Ieee.lean) only "
+                "which function is applied (toDouble_ieee), oddness, the ranges of the double->integer casts and reflexivity of == off NaN "
+                "are proved; that dOfInt is the correctly rounded conversion is an OPEN statement (kernel-evaluated boundary table + tie).  "
+                "The string rows: strtol/strtoul are Lean definitions of the documented glibc behaviour; proved against the positional "
+                "value for every numeral text (the *_numeral theorems) and inverted by printf for every integer (round trips); that glibc "
+                "behaves as documented is assumed and compared on every run.  self_append_creates_cycle covers list append/prepend, array "
+                "append and map append with a new key at any path; the element assignment form (probe e) and an existing map key are probe-only.  "
                 "Lines refused by the model — self-append among them — are skipped on both sides in every 'for all histories' "
                 "statement.  libc parsers atoi/strtoul/atoll/strtoull are Lean definitions of the "
                 "glibc LP64 behaviour.  `refines` is proved for the variable-level model (elements inside payloads by value; below the root it reuses the "
